@@ -353,8 +353,8 @@ func c15conc(args []string) int {
 		}
 		r := rng.New(f.Seed, 0xc15c, uint64(run))
 		small := run%2 == 0
-		G := 2 + r.Intn(7)
-		K := 1 + r.Intn(6)
+		G := 2 + r.Intn(5)
+		K := 1 + r.Intn(5)
 		if !small {
 			G, K = 2+r.Intn(15), 20+r.Intn(200)
 		}
@@ -700,7 +700,7 @@ func c15conc(args []string) int {
 					return outp.(string) == fmt.Sprint(exp), ns
 				},
 			}
-			res := porcupine.CheckOperationsTimeout(model, all, 20*time.Second)
+			res := porcupine.CheckOperationsTimeout(model, all, 10*time.Second)
 			switch res {
 			case porcupine.Illegal:
 				out.Violate("conc-linearizability", fmt.Sprintf("TriggerLevelWriter{Conditional:%d Trigger:%d}: concurrent history of %d ops has no linearization matching the destination sequence %s", cl, tl, len(all), fmtLines(d.got)),
